@@ -567,3 +567,8 @@ def run(ck):
     from .c06 import rule_utils, rule_row_acceptance
     rule_utils(ck)       # the checker the algorithms rely on: no shortcut acceptance, every row, every period (rule ids C06.*)
     ck.attempt(rule_row_acceptance, rid="C07.R8")
+    # "feasible for the network": the infrastructure description handed to the algorithms is computed from the network as it is now and
+    # is the caller's own copy (shared with C05)
+    from .c05 import rule_stateless_view, rule_escape
+    ck.attempt(rule_stateless_view, rid="C07.R9")
+    ck.attempt(rule_escape, rid="C07.R9")
